@@ -5,6 +5,7 @@ import (
 	"context"
 	"io"
 
+	blockfmt "github.com/ipfs/go-block-format"
 	"github.com/ipfs/go-cid"
 	carv2 "github.com/ipld/go-car/v2"
 	"github.com/ipld/go-car/v2/storage"
@@ -111,8 +112,18 @@ func VerifH_C01_WritersToReaders() {
 	path := vFSPath("rw.car")
 	rw, err := OpenReadWrite(path, roots, opts...)
 	vAssert("blockstore-open", err == nil)
-	for _, b := range blocks {
-		vAssert("blockstore-put", rw.Put(ctx, vMkBlock(vEntry{b.c, b.data})) == nil)
+	if vBool("batched") {
+		// the same sequence as one PutMany batch: de-duplication applies within the batch too
+		var batch []blockfmt.Block
+		for _, b := range blocks {
+			batch = append(batch, vMkBlock(vEntry{b.c, b.data}))
+		}
+		vAssert("blockstore-putmany", rw.PutMany(ctx, batch) == nil)
+		vCover("batched-with-duplicate", len(want) < len(blocks) && (storeID || blocks[0].c.Prefix().MhType != 0))
+	} else {
+		for _, b := range blocks {
+			vAssert("blockstore-put", rw.Put(ctx, vMkBlock(vEntry{b.c, b.data})) == nil)
+		}
 	}
 	vAssert("blockstore-finalize", rw.Finalize() == nil)
 	file2, ok := vFSReadFile(path)
